@@ -84,6 +84,12 @@ func Main(t *testing.T, prop string, gen Gen, rule string, nontrivial func(Cfg, 
 				if it.ExecErr {
 					res.Count("exec:error")
 				}
+				if it.Peek && obs[i].Call != nil {
+					res.Count("reader:during-execution")
+				}
+				if obs[i].Res == "committed" && obs[i].Req == nil && i > 0 && rp.History[i-1].T == "step" {
+					res.Count("step:retry-of-stored-pending-block")
+				}
 			}
 			if it.T == "stop" && it.Crash {
 				res.Count(fmt.Sprintf("stop:cut-after-%d-files", it.K))
